@@ -77,7 +77,7 @@ func r5Filter(m map[string]hrec, pred func(hrec) bool) []string {
 func init() {
 	register(&Check{
 		ID:     "C14",
-		Rule:   "E1 on the pristine table: all records; every day 2001-01-01..(last year+1)-12-31 x {GetHoliday, GetHolidayByYmd, GetHolidays (dashed and undashed keys)}; every month and year x by-month/by-year views; every distinct target and every non-target day x by-target views; Solar.Next(n,true) for every day x n in +-{1..10,15,30} and 0; GetSalaryRate on every day; all compared with reference R5 (parsed record map, sorted filters, day-by-day working-day walk). E2: every Fix history over an alphabet of 21 fix-up calls to depth 2 (quick) / 3 (thorough), each history executed in its own fresh process (no harness reset), with all views, the workday walk and the pay rate around the affected days observed on the pristine table first and re-compared with R5 after every fix-up. non-trivial = days carrying a record or lying within 10 days of one, and every Fix transition",
+		Rule:   "E1 on the pristine table: all records; every day 2001-01-01..(last year+1)-12-31 x {GetHoliday, GetHolidayByYmd, GetHolidays (dashed and undashed keys)}; every month and year x by-month/by-year views; every distinct target and every non-target day x by-target views; Solar.Next(n,true) for every day x n in +-{1..10,15,30} and 0; GetSalaryRate on every day; all compared with reference R5 (parsed record map, sorted filters, day-by-day working-day walk). E2: every Fix history over an alphabet of 24 fix-up calls (incl. a 12-entry name table and records with the 10th..12th name) to depth 2 (quick) / 3 (thorough), each history executed in its own fresh process (no harness reset), with all views, the workday walk and the pay rate around the affected days observed on the pristine table first and re-compared with R5 after every fix-up. non-trivial = days carrying a record or lying within 10 days of one, and every Fix transition",
 		Assume: []string{"R5: Fix(names, data) = for each 18-character segment insert/overwrite the record of its day, or delete it when the flag is '~'; views are date-ordered filters", "statutory pay-rate days as documented in Solar.GetSalaryRate (Jan 1, May 1, Oct 1-3, lunar 1/1-3, 5/5, 8/15, Qingming day) with lunar dates and Qingming from the library"},
 		Shards: func(tier string, seed int64) []Shard {
 			sh := []Shard{{Kind: "views", Tier: tier, Seed: seed}, {Kind: "walk", Arg: "0", Tier: tier, Seed: seed}, {Kind: "walk", Arg: "1", Tier: tier, Seed: seed}, {Kind: "walk", Arg: "2", Tier: tier, Seed: seed}, {Kind: "walk", Arg: "3", Tier: tier, Seed: seed}}
@@ -290,8 +290,14 @@ type fixOp struct {
 }
 
 func c14FixOps() []fixOp {
-	ext := append(append([]string{}, HolidayUtil.NAMES...), "测试节")
+	// twelve names (the only table the histories install, so that it never shrinks under existing records): records may
+	// then carry the name indices 9, 10 and 11, the last two encoded with the characters after '9'
+	ext12 := append(append([]string{}, HolidayUtil.NAMES...), "测试节", "第十一节", "第十二节")
 	return []fixOp{
+		{"add-records-with-11th-and-12th-name", ext12, "20311111:120311111" + "20311201;120311201"},
+		{"replace-record-with-11th-name", ext12, "20311111;020311112"},
+		{"remove-records-with-11th-and-12th-name", ext12, "20311111~000000000" + "20311201~000000000"},
+		{"add-record-with-10th-name", ext12, "202105209120210520"},
 		{"add-inside-existing-year", nil, "201003080120100308"},
 		{"add-after-last-year", nil, "209901010120990101"},
 		{"add-before-first-year", nil, "200001010120000101"},
@@ -301,7 +307,6 @@ func c14FixOps() []fixOp {
 		{"remove-existing", nil, "20200101~000000000"},
 		{"remove-absent", nil, "20300101~000000000"},
 		{"two-segments-add-and-remove", nil, "201006140120100614" + "20191001~000000000"},
-		{"extended-names-and-record", ext, "202105200920210520"},
 		{"empty-string-nil-names", nil, ""},
 		{"17-characters", nil, "20220101012022010"},
 		{"add-inside-october-2014", nil, "201410090020141001"},
